@@ -13,8 +13,12 @@ META = {
               "message - the two-read run equals the one-read run (delivered messages, order, bytes, reader state), and the "
               "one-read run equals the reference decoding of the stream. Quick: shapes T=2,7 with all (k,c), T=16/17 with "
               "selected cuts; thorough: all (k,c) for T<=17 plus long shapes (16-bit length form, 2-byte token extension) "
-              "with cuts around every boundary; oversize declarations. All non-steering bytes symbolic.",
-    "outside": "WebSocket frame reader and HTTP handshake splitter (not encoded in this version); TLS record layer; streams of more than two "
+              "with cuts around every boundary; oversize declarations. All non-steering bytes symbolic. WebSocket frame reader coap_ws_read: one call "
+              "from every reader state (k bytes of the frame consumed) with every chunk length c (up to 3 bytes of the next frame), for frames "
+              "with payload 1, 2, 5 (quick) / 9, 126, 16-bit and 64-bit length forms (thorough), masked and unmasked; mask key, payload, next-frame bytes "
+              "and the stale data_ofs symbolic; 64-bit length declarations above the receive buffer (bit 63 set, all ones, datalen+1, 2^56).",
+    "outside": "WebSocket: HTTP handshake splitter, zero-length frames (not a CoAP message; the reader stalls on them - noted in DESIGN 9.5), control frames, "
+               "and how coap_read_session keeps the caller buffer between two calls (the harness keeps it); TLS record layer; streams of more than two "
                "messages; arbitrary message sizes (the shapes are enumerated)",
     "assumptions": ["coap_dispatch and coap_session_disconnected_lkd are recording stubs (what reaches the protocol layer is the subject)",
                     "l_read hands out exactly the chunk sizes of the job; induction over the number of reads is by the step equality read(k);read(c) == read(k+c)"],
@@ -95,4 +99,20 @@ def jobs():
                 if k + c <= H + TE + 2:
                     quick = sn in ("len32f-over", "len32f-wrap") and k in (1, 5) and c in (1, H - k)
                     mk(sn, sh, k, c, "quick" if quick else "thorough", True)
+    # WebSocket frame reader: one coap_ws_read() call from every reader state, per frame shape all (k, c) pairs inside one query
+    wsu = ["coap_ws.c", "coap_threadsafe.c"]
+    for plen, lform, masked, tier in ((1, 0, 1, "quick"), (2, 0, 1, "quick"), (2, 0, 0, "quick"), (5, 0, 1, "quick"), (9, 0, 1, "thorough"), (3, 1, 1, "thorough"),
+                                      (126, 1, 1, "thorough"), (3, 2, 0, "thorough")):
+        t = 2 + (0, 2, 8)[lform] + (4 if masked else 0) + plen
+        js.append(Job("S3-ws-step@p%d-%s-%s" % (plen, ("len7", "len16", "len64")[lform], "masked" if masked else "unmasked"), "C05/c05w.c", "c05_s3_ws_step",
+                      wsu, extra_src=["common/env.c"], defines=["PLEN=%d" % plen, "LFORM=%d" % lform, "MASKED=%d" % masked, "DATALEN=%d" % (200 if plen > 30 else 40), "ENV_LOG_QUIET"],
+                      remove_bodies=["coap_ws_close"], unwind=(212 if plen > 30 else 52), flags=FS, group="S3-ws-step", tier=tier, object_bits=13, timeout=1500, est_gb=4,
+                      desc="coap_ws_read one call from every reader state: frame payload %d bytes, %s, every (k, c)" % (plen, ("7-bit", "16-bit", "64-bit")[lform] + " length"),
+                      bounds={"payload": plen, "length_form": lform, "masked": masked, "k": "0..%d" % (t - 1), "c": "1..T-k+3"}))
+    for hi, lo, nm in ((0x80, 0x10, "bit63"), (0xff, 0xff, "all-ones-top"), (0x00, 41, "datalen+1"), (0x01, 0x00, "2^56")):
+        js.append(Job("S3-ws-oversize@%s" % nm, "C05/c05w.c", "c05_s3_ws_oversize", wsu, extra_src=["common/env.c"],
+                      defines=["OVER_HI=%d" % hi, "OVER_LO=%d" % lo, "DATALEN=40", "ENV_LOG_QUIET"], remove_bodies=["coap_ws_close"], unwind=60, flags=FS,
+                      group="S3-ws-oversize", timeout=600, est_gb=3,
+                      desc="coap_ws_read: 64-bit length declaration %s larger than the receive buffer closes with 1009, nothing read" % nm,
+                      bounds={"declared_length_top_byte": hi, "low_byte": lo}))
     return js
